@@ -17,10 +17,13 @@ ffi.cdef("""
     int c29_call_i(int (*f)(int), int x);
     long long c29_call_l(long long (*f)(int, long long), int a, long long b);
     double c29_call_d(double (*f)(double), double x);
+    int c29_call_raw32(int (*f)(unsigned int), unsigned int raw);
+    int c29_call_raw8(int (*f)(unsigned char), unsigned char raw);
     long c29_sizeof_closure(void);
     long c29_pagesize(void);
 """)
-SIGS = ["int(int)", "long long(int, long long)", "double(double)"]
+SIGS = ["int(int)", "long long(int, long long)", "double(double)", "int(char32_t)", "int(wchar_t)", "int(_Bool)"]
+BAD_RAW = {3: [0x110000, 0xFFFFFFFF, 0x7FFFFFFF], 4: [0x110000, 0xFFFFFFFF, 0x80000000], 5: [2, 255, 128]}
 
 
 def helper():
@@ -39,9 +42,12 @@ def make_fn(fid, sig, holder):
     elif sig == 1:
         def fn(a, b, fid=fid, holder=holder):
             return fid * 1000003 + a * 31 + b
-    else:
+    elif sig == 2:
         def fn(x, fid=fid, holder=holder):
             return fid + x / 4.0
+    else:
+        def fn(x, fid=fid, holder=holder):          # x: a 1-character str, or a bool
+            return fid * 7919 + (ord(x) if isinstance(x, str) else int(x))
     return fn
 
 
@@ -66,6 +72,17 @@ def invoke(lib, cb, sig, x, route):
             r = cb(a, b)
         fid = (r - a * 31 - b) // 1000003
         return fid, r == fid * 1000003 + a * 31 + b
+    if sig >= 3:
+        raw = (x % 2) if sig == 5 else 65 + x % 26
+        if route == "c":
+            if sig == 5:
+                r = lib.c29_call_raw8(ffi.cast("int(*)(unsigned char)", cb), raw)
+            else:
+                r = lib.c29_call_raw32(ffi.cast("int(*)(unsigned int)", cb), raw)
+        else:
+            r = cb(bool(raw) if sig == 5 else chr(raw))
+        fid = (r - raw) // 7919
+        return fid, r == fid * 7919 + raw
     xf = float(x)
     if route == "c":
         r = lib.c29_call_d(cb, xf)
@@ -175,6 +192,21 @@ def main(payload):
             if cyc:
                 gc.collect()
             outs.append(["none"])
+        elif k == "badcall":
+            # from C, with an argument convert_to_object rejects: the Python function must not run and the C
+            # caller gets the error value (0)
+            _, h, which = op
+            cb, sig, cyc = live[h]
+            raw = BAD_RAW[sig][which % 3]
+            try:
+                if sig == 5:
+                    r = lib.c29_call_raw8(ffi.cast("int(*)(unsigned char)", cb), raw)
+                else:
+                    r = lib.c29_call_raw32(ffi.cast("int(*)(unsigned int)", cb), raw)
+                outs.append(["errval", r])
+            except Exception as e:
+                outs.append(["err", type(e).__name__])
+            del cb
         elif k == "call":
             _, h, x, route = op
             cb, sig, cyc = live[h]
